@@ -198,6 +198,58 @@ def h_states(ctx, pre, event, negotiated=False):
         ctx.observe("state", ch.readyState)
 
 
+class _Yield:
+    def __await__(self):
+        yield "suspended"
+
+
+def h_close_interleave(ctx):
+    """Two channels are closed one right after the other while the transport write of the first
+    stream-reset request is suspended; the two _transmit_reconfig tasks interleave in a
+    solver-chosen schedule.  Only one request may be outstanding at a time, and once the peer has
+    answered both channels are closed."""
+    with Env(crc=_crc()) as env:
+        t = env.transport("controlling", established=True, local_tsn=100, remote_tsn=200, vtag=1, rtag=2)
+        a, b = env.channel(t, id=1), env.channel(t, id=3)
+        sent = []
+        suspend = [True]
+
+        async def send_param(param):
+            if suspend[0]:
+                await _Yield()
+            sent.append(param)
+
+        t._send_reconfig_param = send_param
+        a.close()
+        b.close()
+        tasks = list(env.asyncio.queue)
+        del env.asyncio.queue[:]
+        live = list(range(len(tasks)))
+        steps = 0
+        while live:
+            steps += 1
+            if steps > 20:
+                ctx.fail("close-tasks-do-not-terminate")
+                break
+            i = live[0] if len(live) == 1 else ctx.choice("run%d" % steps, live)
+            try:
+                tasks[i].send(None)
+            except StopIteration:
+                live.remove(i)
+        ctx.reach("closes-interleaved")
+        reqs = [p for p in sent if isinstance(p, StreamResetOutgoingParam)]
+        ctx.check(len(reqs) == 1, "one-reset-request-outstanding-at-a-time", "%d sent before any answer" % len(reqs))
+        suspend[0] = False
+        for _ in range(3):
+            for p in [p for p in sent if isinstance(p, StreamResetOutgoingParam) and not getattr(p, "_answered", False)]:
+                p._answered = True
+                sx.run(t._receive_reconfig_param(StreamResetResponseParam(response_sequence=p.request_sequence, result=1)))
+                env.drain()
+        ctx.check(a.readyState == "closed" and b.readyState == "closed", "both-channels-close-once-the-peer-answers", "%s / %s" % (a.readyState, b.readyState))
+        ctx.check(1 not in t._data_channels and 3 not in t._data_channels, "ids-freed")
+        ctx.observe("n", len(sent))
+
+
 KINDS = ["reliable", "rexmit", "timed", "unordered"]
 
 
@@ -467,6 +519,7 @@ def _open_jobs(tier):
 HARNESSES = {
     "open": Harness("open", h_open, _open_jobs, style="RT", bounds="label and protocol of 0..2 code points each over full Unicode (surrogates excluded), reliable / maxRetransmits / maxPacketLifeTime (16-bit symbolic), ordered or not, automatic or explicit symbolic id", encoded=ENC, stubs=STUBS, twin="open-delivered"),
     "ids": Harness("ids", h_ids, lambda tier: [{"role": r, "nexisting": n} for r in ("controlling", "controlled") for n in (0, 1, 2, 3)] + [{"role": r, "nexisting": n, "nclosed": c} for r in ("controlling", "controlled") for n in (0, 1) for c in (1, 2)], style="STEP", bounds="<=3 existing channels with symbolic distinct ids 0..12, both roles; in a second job set 1..2 further channels (any id, either side's parity) that were closed before", encoded=ENC, stubs=STUBS, twin="id-allocated"),
+    "close-interleave": Harness("close-interleave", h_close_interleave, lambda tier: [{}], style="BMC over schedules", bounds="two close() calls whose _transmit_reconfig tasks interleave at the suspension point of the transport write (every schedule), then the peer's answers", encoded=ENC + ["aiortc.rtcsctptransport:RTCSctpTransport._transmit_reconfig"], stubs=STUBS + ["_send_reconfig_param -> suspends once, then records the parameter"], twin="closes-interleaved", opts={"samples": 1}),
     "flush-params": Harness("flush-params", h_flush_params, lambda tier: [{"n": n} for n in ((2,) if tier == "quick" else (2, 3))], style="BMC over configurations", bounds="2 (quick) / 3 negotiated channels of solver-chosen kind {reliable, maxRetransmits, maxPacketLifeTime, unordered}; 2 / 3 queued messages (DCEP or data, solver-chosen channel) flushed in one call", encoded=ENC + ["aiortc.rtcsctptransport:RTCSctpTransport._data_channel_flush"], stubs=STUBS + ["RTCSctpTransport._send -> recorder"], twin="flushed", opts={"samples": 1}),
     "close-early": Harness("close-early", h_close_early, lambda tier: [{"negotiated": n} for n in (True, False)], style="STEP", bounds="one channel with an explicit symbolic id 0..65534 (negotiated or in-band) closed before the association is established, the id re-used at once, then establishment", encoded=ENC, stubs=STUBS, twin="closed-early", opts={"samples": 1}),
     "states": Harness("states", h_states, lambda tier: [{"pre": p, "event": e} for p in PRE for e in EVENTS] + [{"pre": p, "event": e, "negotiated": True} for p in ("open", "closing", "closing-requested", "closed") for e in ("assoc-established", "assoc-closed", "dcep", "reset-in")], style="STEP", bounds="6 abstract pre-states x 7 events; channel id, DCEP message byte, stream ids and sequence numbers of the RE-CONFIG parameters symbolic (the solver decides whether they match the channel / the pending request)", encoded=ENC, stubs=STUBS, twin="event-processed"),
